@@ -11,7 +11,16 @@ THEOREMS = [
     "C20.ids_distinct_legacy_counterexample",
     "C20.restore_reproduces_legacy_counterexample",
     "C20.crash_preserves_earlier_legacy_counterexample",
+    "C20.checkpointSteps_refine",
+    "C20.crashAt_eq_crashFs",
+    "C20.crash_at_any_point_preserves_earlier",
+    "C20.crash_at_any_point_all_or_error",
+    "C20.numbered_point_complete_from_write",
+    "C20.restore_crash_no_fs_change",
+    "C20.restore_after_crash_then_continue",
+    "C20.reopen_same_ms_aliases_counterexample",
 ]
+LEAN_TARGETS = ["RreModel.C20.Theorems", "RreModel.C20.Theorems2"]
 N = {"quick": 6000, "thorough": 60000}
 EXHAUSTIVE = {"quick": False, "thorough": False}
 RULE = ("cases = corpus + every sequence of length <=3 (thorough: <=4) over the alphabet {put, put_with_ttl, update, delete, "
@@ -27,7 +36,16 @@ RULE = ("cases = corpus + every sequence of length <=3 (thorough: <=4) over the 
         "-1 / exactly / +1, then op Z = a checkpoint that fails with a REAL I/O error - the path of its state.json is occupied by a "
         "directory so File::create fails -, then every earlier checkpoint restored, then a further checkpoint or a crash analysis; "
         "Z also replaces one random checkpoint in ten): after Z list_checkpoints and every earlier checkpoint's file must be what "
-        "they were (this observes the real code's own step order, which the reconstructed crash states cannot). "
+        "they were (this observes the real code's own step order, which the reconstructed crash states cannot) "
+        "+ a REAL-KILL family (kind Q; 36 histories, thorough 240, each with 0..max_checkpoints+1 checkpoints on disk so that the "
+        "fatal call runs with and without a retention victim): the history runs in a CHILD process (`c20 crash-child`) that "
+        "std::process::abort()s at the armed cfg(rre_verif) crash point - EVERY numbered point 0..9 of the real checkpoint "
+        "(begin, mkdir, serialise, create, write, push, [drop, rmtree,] stamp; past the last one the child returns and exits) or "
+        "0..7 of the real restore -; the parent lists the directory the dead child left, lets a new store holding sentinel entries "
+        "restore every id the child had reported plus the id under way, then opens another new store on that directory >= 1 ms "
+        "later and puts / checkpoints / restores ids of both lives. The model predicts, from Model.checkpointSteps / restoreSteps "
+        "(the list the theorems quantify over), whether the child dies, the label of the fatal point, the directory, every restore "
+        "outcome and the whole second life; Spec.killOk / runOk2 judge the implementation's observations. "
         "Every case runs on the real StateStore in a private directory with the injected clock (several "
         "checkpoints share one millisecond unless the clock is advanced) and on the Lean model; after every call get/keys/len, "
         "list_checkpoints and the parsed files under the backend path are diffed, and Spec.runOk is evaluated on the "
@@ -42,8 +60,10 @@ TRUSTED = [
     "serde_json contract Codec.Lawful (parse(serialize m) = m; a strict prefix of serialize m does not parse) is an ASSUMPTION of the "
     "theorems; it is exercised on the real serde_json at every truncation point of every crash analysis, and shown satisfiable in Lean (natCodec)",
     "file-system steps (create_dir_all, File::create, each write of a prefix, unlink, rmdir) are atomic and succeed; a crash leaves a prefix "
-    "of the code's step sequence (no reordering by the OS, no torn directory entries); the crash states are rebuilt by the harness from the "
-    "model's step order, not produced by killing the process",
+    "of the code's step sequence (no reordering by the OS, no torn directory entries, the page cache survives: the PROCESS is killed, not "
+    "the machine). The numbered crash points (one before the first and one after every effect of checkpoint / restore) are produced by "
+    "really killing a child process at the cfg(rre_verif) hook `verif_crash` and compared with Model.checkpointSteps; the states INSIDE "
+    "write_all (every byte offset) and inside remove_dir_all are rebuilt by the harness in the model's step order, not produced by a kill",
     "harness/src/bin/c20.rs, Driver/C20.lean parsing/printing glue, check.py diff; the cfg(rre_verif) clock override in streaming/state.rs",
     "Spec.lean (runtime oracle) is the observation-level transcription of the theorems; it is additionally evaluated on the model's own "
     "observations every run (extra check), not proved equivalent",
@@ -53,11 +73,15 @@ ASSUMPTIONS = [
     "the backend directory is private to one StateStore (no other writer) and starts empty",
     "HashMap<String, StateEntry> = association list with distinct keys (invariant proved); value identity = index into a fixed table of Values",
     "restore after a crash is performed by any store that sees the directory (the theorem quantifies over the restoring store)",
+    "a store reopened on a directory another store left: restore_after_crash_then_continue assumes the clock reads a LATER millisecond than "
+    "every surviving directory's (checkpoint_seq restarts at 0 and the directory is not consulted: reopened within the same millisecond "
+    "the new store reuses - and overwrites - the earlier life's ids, finding F-C20b, reopen_same_ms_aliases_counterexample)",
 ]
 
 
 def classify(case, impl, model, oracle, kind):
     if kind == "oracle":
+        # F-C20b: a store reopened in the millisecond of an earlier life's checkpoint reuses its id (kind Q without a clock advance)
         return "oracle:" + oracle.split("@")[0].replace("fail ", "")
     return "diff"
 
@@ -83,8 +107,15 @@ LEVEL_TEXT = ("Lean 4 theorems (kernel-checked, unbounded: every codec meeting t
               "byte-identical (crash_preserves_earlier), restoring the interrupted id yields the complete state or an error and no change "
               "(interrupted_all_or_error, failed_restore_no_change); tied to src/streaming/state.rs by a correspondence check (exhaustive "
               "short + random histories on the real file backend, observations after every call) and by evaluating Spec.runOk on the "
-              "implementation's observations, including every truncation point of state.json.")
+              "implementation's observations, including every truncation point of state.json. Part 2: the crash theorems restated over "
+              "the NUMBERED crash points of the real procedure (Model.checkpointSteps, proved to be the coarsening of the byte-granular "
+              "list: checkpointSteps_refine, crashAt_eq_crashFs; crash_at_any_point_preserves_earlier / _all_or_error for every history "
+              "and every point index), restore never writes (restore_crash_no_fs_change), and a store reopened on the directory a dead "
+              "process left keeps restore_reproduces / ids_distinct and never touches a surviving directory "
+              "(restore_after_crash_then_continue, hypothesis: the clock has moved to a later millisecond); these points are tied to the "
+              "code by really killing a child process at each of them.")
 LEVEL_NOTE = ("Partial by design (DESIGN §8): file-system steps assumed atomic and the serde_json prefix contract assumed (both exercised, "
-              "not proved); crash states are reconstructed in the model's step order rather than produced by killing the process. "
+              "not proved); the numbered crash points between the effects are produced by killing a real child process, the states inside "
+              "write_all / remove_dir_all are reconstructed in the model's step order; a machine crash (lost page cache) is out of scope. "
               "Model follows the code after fix-C20 (sequence suffix); the pre-fix id scheme is refuted in Lean by three counterexamples.")
 DESIGN_REF = "§6 C20"
